@@ -5,6 +5,7 @@ import (
 	"go/constant"
 	"go/token"
 	"go/types"
+	"sort"
 	"strings"
 
 	"golang.org/x/tools/go/ssa"
@@ -900,6 +901,88 @@ func checkC10(w *World, r *Report) {
 		r.check(sent, "C10.deliver", body, "exit of the body goroutine", ret.Pos(), "outcome sent on every path to this exit", "the body can finish without delivering its outcome: every deref then blocks until its own context ends")
 	}
 	r.floor("C10.deliver", "exits of the body goroutine", nd, 1)
+	// what is delivered is what the body came to: the value or the error its application returned, never an
+	// outcome made up by the goroutine (an error of its own for a cancelled future, say: the value the body threw,
+	// or the error its builtin returned, never reaches the catch around the deref)
+	r.rule("C10.outcome-own", "every send on an outcome channel in the body goroutine (and the functions of the package it delivers through) sends a result of the application of the future's function - its value or its error - as it is")
+	{
+		var fromApply func(v ssa.Value, depth int) bool
+		fromApply = func(v ssa.Value, depth int) bool {
+			if depth > 5 {
+				return false
+			}
+			switch x := v.(type) {
+			case *ssa.MakeInterface:
+				return fromApply(x.X, depth+1)
+			case *ssa.ChangeInterface:
+				return fromApply(x.X, depth+1)
+			case *ssa.Extract:
+				return x.Tuple == ssa.Value(applies[0])
+			case *ssa.Phi:
+				for _, op := range x.Edges {
+					if !fromApply(op, depth+1) {
+						return false
+					}
+				}
+				return len(x.Edges) > 0
+			case *ssa.UnOp:
+				// a variable of the body (captured by a literal): every value stored into it
+				if cell := cellOf(x.X); cell != nil && x.Op == token.MUL {
+					sts := e.storesTo(cell)
+					for _, st := range sts {
+						if !fromApply(st.Val, depth+1) {
+							return false
+						}
+					}
+					return len(sts) > 0
+				}
+			case *ssa.Parameter:
+				fn := x.Parent()
+				if fn == nil || !(bodyHelpers[fn] || fn == body) {
+					return false
+				}
+				idx := -1
+				for i, p := range fn.Params {
+					if p == x {
+						idx = i
+					}
+				}
+				sites := e.callSites(fn)
+				if idx < 0 || len(sites) == 0 {
+					return false
+				}
+				for _, site := range sites {
+					if idx >= len(site.Common().Args) || !fromApply(site.Common().Args[idx], depth+1) {
+						return false
+					}
+				}
+				return true
+			}
+			return false
+		}
+		no := 0
+		fns := []*ssa.Function{body}
+		for h := range bodyHelpers {
+			fns = append(fns, h)
+		}
+		sort.Slice(fns, func(i, j int) bool { return fns[i].String() < fns[j].String() })
+		for _, fn := range fns {
+			for _, b := range fn.Blocks {
+				for _, in := range b.Instrs {
+					sd, ok := in.(*ssa.Send)
+					if !ok {
+						continue
+					}
+					if _, isOutcome := outcomeChanField(sd.Chan); !isOutcome {
+						continue
+					}
+					no++
+					r.check(fromApply(sd.X, 0), "C10.outcome-own", fn, "outcome sent by the body goroutine", sd.Pos(), "a result of applying the future's function", "the goroutine delivers something other than what the body came to ("+describeVal(e, sd.X, 0)+"): the value the body threw or the error it returned is replaced, and every deref gets the replacement")
+				}
+			}
+		}
+		r.floor("C10.outcome-own", "outcomes sent by the body goroutine", no, 2)
+	}
 	singleOutcomeRule(w, r, e, "C10.single-outcome")
 	doneFlagRule(w, r, e, "C10.done-flag")
 	cancelFlagRule(w, r, "C10.cancel-flag")
@@ -1126,6 +1209,7 @@ func checkC10(w *World, r *Report) {
 			}
 			_, isDefer := in.(*ssa.Defer)
 			guarded := false
+			var otherCond ssa.Instruction
 			for _, d := range cancel.Blocks {
 				if len(d.Instrs) == 0 {
 					continue
@@ -1143,13 +1227,23 @@ func checkC10(w *World, r *Report) {
 					if u, ok := cond.(*ssa.UnOp); ok && u.Op == token.NOT {
 						cond, pol = u.X, !pol
 					}
+					isDone := false
 					if l2, ok := cond.(*ssa.UnOp); ok && l2.Op == token.MUL {
-						if fa2, ok := l2.X.(*ssa.FieldAddr); ok && fieldName(fa2.X.Type(), fa2.Field) == "Done" && !pol {
-							guarded = true
+						if fa2, ok := l2.X.(*ssa.FieldAddr); ok && fieldName(fa2.X.Type(), fa2.Field) == "Done" {
+							isDone = true
+							if !pol {
+								guarded = true
+							}
 						}
+					}
+					if !isDone {
+						otherCond = iff
 					}
 				}
 			}
+			// "cancelling a future that has not completed returns true and marks it": whether the future has
+			// completed is the only thing the decision rests on
+			r.check(otherCond == nil, "C10.cancel-atomic", cancel, "what the cancellation depends on", in.Pos(), "the Done flag alone", "the cancellation is made to depend on a further condition ("+w.pos(instrPos(otherCondOr(otherCond, in)))+"): a future that has not completed can be left running, unmarked, with future-cancel answering false")
 			r.check(guarded && !isDefer, "C10.cancel-atomic", cancel, "call of CancelFunc", in.Pos(), "only on the path where Done was false", "the body's context is cancelled even when the future had already completed (future-cancel must change nothing then)")
 		}
 	}
@@ -1194,6 +1288,28 @@ func checkC11(w *World, r *Report) {
 				}
 				r.check(okOrder, "C11.order", fn, construct, lc.in.Pos(), "locks the outer scope while holding the inner one (child-then-parent)", "acquires another scope's lock that is not the holder's outer scope: lock-order inversion or self-deadlock")
 				continue
+			}
+			// the same through the scope interface: a method of a scope that locks, called on a scope that is not
+			// the holder's outer one (a scope found by a lookup may be the holder itself: a second read lock)
+			if c.IsInvoke() && strings.HasSuffix(c.Value.Type().String(), "types.EnvType") {
+				locksScope := false
+				for _, d := range w.dynCallees(lc.in) {
+					if fnPkgPath(d) == modPath+"/env" && len(e.locks(d).acquires) > 0 {
+						locksScope = true
+					}
+				}
+				if locksScope {
+					recvKey := e.keyOf(c.Value).String()
+					okOrder := false
+					for k := range lc.held {
+						base := strings.TrimSuffix(k, "."+w.roles().envMu)
+						if recvKey == base+"->"+w.roles().envOuter {
+							okOrder = true
+						}
+					}
+					r.check(okOrder, "C11.order", fn, construct, lc.in.Pos(), "locks the outer scope while holding the inner one (child-then-parent)", "a locking method is called, with a scope lock held, on a scope that is not known to be the holder's outer scope ("+describeVal(e, c.Value, 0)+"): it may be the holder itself - a recursive read lock, which dead-locks as soon as a writer queues in between")
+					continue
+				}
 			}
 			r.ok("C11.order", fn, construct, lc.in.Pos(), "callee neither locks a scope nor reaches the evaluator")
 		}
@@ -1252,7 +1368,7 @@ func checkC11(w *World, r *Report) {
 	// shared globals that are atoms: a swap! retried because another evaluation got in first computes what it
 	// computes alone (the library's memoize, gensym and counters rest on it)
 	r.include("C11.atom-", "C09.", "an evaluation that updates a shared atom with swap! gets f(current, args...) also when it has to retry", checkC09, func(rule string) bool {
-		return rule == "C09.rmw" || rule == "C09.install" || rule == "C09.version" || rule == "C09.guard" || rule == "C09.lisp-monotone" || rule == "C09.no-reentry"
+		return rule == "C09.rmw" || rule == "C09.install" || rule == "C09.version" || rule == "C09.guard" || rule == "C09.lisp-monotone" || rule == "C09.no-reentry" || rule == "C09.version-width"
 	})
 	// "each evaluation that only reads shared globals ... returns exactly what it returns alone": the values the
 	// globals hold are shared by all evaluations, so no builtin may write into a value it was handed
@@ -1629,6 +1745,43 @@ func doneFlagRule(w *World, r *Report, e *Engine, rule string) {
 		if ld, ok := v.(*ssa.UnOp); ok && ld.Op == token.MUL {
 			if fa, ok := ld.X.(*ssa.FieldAddr); ok && fieldName(fa.X.Type(), fa.Field) == "Done" && fa.X == ssa.Value(isDone.Params[0]) {
 				okFlag = true
+			}
+		}
+		// one of the results of a method of the same future that hands back the flags it read (`done, _ := f.state()`)
+		if !okFlag {
+			var hc *ssa.Call
+			idx := 0
+			switch y := v.(type) {
+			case *ssa.Extract:
+				hc, _ = y.Tuple.(*ssa.Call)
+				idx = y.Index
+			case *ssa.Call:
+				hc = y
+			}
+			if hc != nil {
+				if h := hc.Call.StaticCallee(); h != nil && h.Pkg == isDone.Pkg && len(h.Blocks) > 0 && len(h.Params) > 0 && len(hc.Call.Args) > 0 && hc.Call.Args[0] == ssa.Value(isDone.Params[0]) {
+					all, nr := true, 0
+					for _, hb := range h.Blocks {
+						if len(hb.Instrs) == 0 || hb == h.Recover {
+							continue
+						}
+						hr, ok := hb.Instrs[len(hb.Instrs)-1].(*ssa.Return)
+						if !ok || idx >= len(hr.Results) {
+							continue
+						}
+						nr++
+						ld, ok := resolveRet(hr.Results[idx]).(*ssa.UnOp)
+						if !ok || ld.Op != token.MUL {
+							all = false
+							continue
+						}
+						fa, ok := ld.X.(*ssa.FieldAddr)
+						if !ok || fieldName(fa.X.Type(), fa.Field) != "Done" || fa.X != ssa.Value(h.Params[0]) {
+							all = false
+						}
+					}
+					okFlag = all && nr > 0
+				}
 			}
 		}
 		// read through a helper of the package that is handed the flag's address and returns what it holds
@@ -2496,4 +2649,11 @@ func ownLockRule(w *World, r *Report, e *Engine, rule string) {
 		}
 	}
 	r.floor(rule, "stores to Env.mu", nl, 1)
+}
+
+func otherCondOr(a, b ssa.Instruction) ssa.Instruction {
+	if a != nil {
+		return a
+	}
+	return b
 }
